@@ -76,26 +76,26 @@ def run(res, tier, seed, driver_ok):
         except Exception as e:
             bad('raises:%s' % type(e).__name__, 'dynamics function raised on a valid chain', inp, repr(e)); continue
         sc = max(1.0, float(np.max(np.abs(M))))
-        if np.max(np.abs(M - M.T)) > 1e-8 * sc:
+        if G.gt(np.max(np.abs(M - M.T)), 1e-8 * sc):
             bad('mass-not-symmetric', 'mass matrix is not symmetric', inp, G.maxdiff(M, M.T))
         ev = np.linalg.eigvalsh((M + M.T) / 2)
         if ev[0] <= 0:
             bad('mass-not-pd', 'mass matrix is not positive definite', inp, float(ev[0]))
         Js, Ts = link_jacobians(d, th)
         Msum = sum(Js[i].T @ d['Glist'][i] @ Js[i] for i in range(n))
-        if np.max(np.abs(M - Msum)) > 1e-8 * sc:
+        if G.gt(np.max(np.abs(M - Msum)), 1e-8 * sc):
             bad('mass-closed-form', 'mass matrix differs from sum_i J_i^T G_i J_i', inp, G.maxdiff(M, Msum))
         tsc = max(1.0, float(np.max(np.abs(tau))))
-        if np.max(np.abs(tau - (M @ ddth + c + gr + ft))) > 1e-8 * tsc:
+        if G.gt(np.max(np.abs(tau - (M @ ddth + c + gr + ft))), 1e-8 * tsc):
             bad('decomposition', 'torque differs from M*qdd + c + g + J^T F', inp, G.maxdiff(tau, M @ ddth + c + gr + ft))
-        if np.max(np.abs(qdd - ddth)) > 1e-7 * max(1.0, float(np.max(np.abs(ddth)))) * max(1.0, ev[-1] / max(ev[0], 1e-12)) ** 0.5:
+        if G.gt(np.max(np.abs(qdd - ddth)), 1e-7 * max(1.0, float(np.max(np.abs(ddth)))) * max(1.0, ev[-1] / max(ev[0], 1e-12)) ** 0.5):
             bad('fd-inverts-id', 'forward dynamics does not invert inverse dynamics', inp, G.maxdiff(qdd, ddth))
         # tip force is J_n^T F in the tool frame
         Tn1 = Ts[-1][0] @ d['Mlist'][n]
         Jtip = np.zeros((6, n))
         for j in range(n):
             Jtip[:, j] = armh.Ad(np.linalg.inv(Tn1) @ Ts[j][0]) @ Ts[j][1]
-        if np.max(np.abs(ft - Jtip.T @ F)) > 1e-8 * max(1.0, float(np.max(np.abs(ft)))):
+        if G.gt(np.max(np.abs(ft - Jtip.T @ F)), 1e-8 * max(1.0, float(np.max(np.abs(ft))))):
             bad('tip-force', 'tip-force term differs from J^T F_tip', inp, G.maxdiff(ft, Jtip.T @ F))
         # passivity: qd . c = 1/2 qd^T Mdot qd  (central difference of M along qd)
         h = 1e-5
@@ -109,7 +109,7 @@ def run(res, tier, seed, driver_ok):
             Tq = link_frames(d, q)
             return -sum(masses[i] * float(g @ Tq[i][0][:3, 3]) for i in range(n))
         grad = np.array([(V(th + h * np.eye(n)[k]) - V(th - h * np.eye(n)[k])) / (2 * h) for k in range(n)])
-        if np.max(np.abs(gr - grad)) > 1e-6 * max(1.0, float(np.max(np.abs(gr)))):
+        if G.gt(np.max(np.abs(gr - grad)), 1e-6 * max(1.0, float(np.max(np.abs(gr))))):
             bad('gravity-gradient', 'gravity term is not the gradient of the links\' potential energy', inp, G.maxdiff(gr, grad))
         # energy conservation over a short torque-free, wrench-free motion (RK4 on the library's forward dynamics)
         if n_ % 10 == 0:
@@ -179,7 +179,7 @@ def run(res, tier, seed, driver_ok):
                     t = np.asarray(call(), dtype=float).reshape(-1)
             except Exception as e:
                 bad('raises:arm.%s:%s' % (name, type(e).__name__), 'Arm.%s raised' % name, inpa, repr(e)); continue
-            if np.max(np.abs(t - ref)) > 1e-7 * max(1.0, float(np.max(np.abs(ref)))):
+            if G.gt(np.max(np.abs(t - ref)), 1e-7 * max(1.0, float(np.max(np.abs(ref))))):
                 bad('arm-id-disagree:%s' % name, 'Arm.%s disagrees with the Modern Robotics recursion on the same arm' % name, inpa, {'got': t.tolist(), 'ref': ref.tolist()})
         try:
             with contextlib.redirect_stdout(io.StringIO()):
@@ -189,13 +189,13 @@ def run(res, tier, seed, driver_ok):
                 fd = np.asarray(arm.forwardDynamics(q.copy(), qd.copy(), tau.copy(), gv, Fz), dtype=float).reshape(-1)
                 fde = np.asarray(arm.forwardDynamicsE(q.copy(), qd.copy(), tau.copy(), gv, Fz.reshape((6, 1)))[0], dtype=float).reshape(-1)
             Mref = mr.MassMatrix(q, Mlist, Gl, Sl)
-            if np.max(np.abs(Ma - Mref)) > 1e-7 * max(1.0, float(np.max(np.abs(Mref)))):
+            if G.gt(np.max(np.abs(Ma - Mref)), 1e-7 * max(1.0, float(np.max(np.abs(Mref))))):
                 bad('arm-massmatrix', 'Arm.massMatrix disagrees with MassMatrix', inpa, G.maxdiff(Ma, Mref))
             href = mr.VelQuadraticForces(q, qd, Mlist, Gl, Sl) + mr.GravityForces(q, gv, Mlist, Gl, Sl)
-            if np.max(np.abs(h_ - href)) > 1e-7 * max(1.0, float(np.max(np.abs(href)))):
+            if G.gt(np.max(np.abs(h_ - href)), 1e-7 * max(1.0, float(np.max(np.abs(href))))):
                 bad('arm-coriolisGravity', 'Arm.coriolisGravity disagrees with c + g', inpa, G.maxdiff(h_, href))
             cond = np.linalg.cond(Mref)
-            if np.max(np.abs(fd - qdd)) > 1e-9 * cond * max(1.0, float(np.max(np.abs(qdd)))) or np.max(np.abs(fde - qdd)) > 1e-9 * cond * max(1.0, float(np.max(np.abs(qdd)))):
+            if G.gt(np.max(np.abs(fd - qdd)), 1e-9 * cond * max(1.0, float(np.max(np.abs(qdd))))) or G.gt(np.max(np.abs(fde - qdd)), 1e-9 * cond * max(1.0, float(np.max(np.abs(qdd))))):
                 bad('arm-fd', 'Arm forward dynamics does not invert inverse dynamics', inpa, [G.maxdiff(fd, qdd), G.maxdiff(fde, qdd)])
         except Exception as e:
             bad('raises:arm.dynamics:%s' % type(e).__name__, 'Arm mass matrix / forward dynamics raised', inpa, repr(e))
